@@ -3,6 +3,7 @@ package state
 import (
 	"strings"
 
+	"github.com/ProtonMail/gluon/imap"
 	"github.com/ProtonMail/gluon/limits"
 )
 
@@ -48,7 +49,7 @@ func VerifC14Paths() {
 	vsymAssert(len(inf) == cnt, "inferiors are exactly the names below the parent")
 }
 
-var c14Names = []string{"a", "a/b", "a/b/c", "b", "a/", "/a", "a//b", "INBOX", "inbox", "b/c"}
+var c14Names = []string{"a", "a/b", "a/b/c", "b", "a/", "/a", "a//b", "INBOX", "inbox", "b/c", "a/a"}
 
 type c14Ref struct {
 	names map[string]bool
@@ -175,4 +176,94 @@ func VerifC14Namespace() {
 		}
 		vsymAssert(cnt == len(ref.names), "the index holds exactly the mailboxes of the reference model (names unique)")
 	}
+}
+
+
+// ---- LIST: RFC 3501 wildcard matching over the existing names and the names that exist only as parents ----
+
+// c14Wild: '*' matches any characters, '%' any characters but the delimiter.
+func c14Wild(p, s string) bool {
+	if p == "" {
+		return s == ""
+	}
+	switch p[0] {
+	case '*':
+		for i := 0; i <= len(s); i++ {
+			if c14Wild(p[1:], s[i:]) {
+				return true
+			}
+		}
+		return false
+	case '%':
+		for i := 0; i <= len(s); i++ {
+			if i > 0 && s[i-1] == '/' {
+				break
+			}
+			if c14Wild(p[1:], s[i:]) {
+				return true
+			}
+		}
+		return false
+	}
+	return s != "" && s[0] == p[0] && c14Wild(p[1:], s[1:])
+}
+
+var c14ListPool = []string{"a", "a/b", "a/b/c", "b", "ab/c", "a/b/c/d"}
+var c14Refs = []string{"", "a/", "a", "a/b/"}
+var c14Patterns = []string{"*", "%", "a/%", "a*", "%/%", "*c", "a/b", "inbox", "%b", "a/*", "*/c", "a/%/c", "A", "%/%/%", "*%", "a/b/c/d"}
+
+// VerifC14List: LIST ref pattern over an arbitrary subset of a name pool (so that names can exist only as parents,
+// at any number of consecutive levels) returns exactly the names the wildcard rules select among the existing
+// names and their superiors, with \\Noselect exactly for the names that exist only as parents.
+func VerifC14List() {
+	w := verifNewWorld(limits.DefaultLimits())
+	w.db.AddBox("INBOX", "mb-inbox", 2)
+	exists := map[string]bool{"INBOX": true}
+	for i, nm := range c14ListPool {
+		if vsymChoice("present", 2) == 1 {
+			w.db.AddBox(nm, imap.MailboxID("mb-"+nm), imap.UID(10+i))
+			exists[nm] = true
+		}
+	}
+	ref := c14Refs[vsymChoice("ref", len(c14Refs))]
+	pattern := c14Patterns[vsymChoice("pattern", len(c14Patterns))]
+	st := w.newState(1)
+	var got map[string]Match
+	err := st.List(ctxFor(st), ref, pattern, false, func(m map[string]Match) error { got = m; return nil })
+	vsymAssert(err == nil, "LIST succeeds")
+	if err != nil {
+		return
+	}
+	cand := map[string]bool{}
+	for nm := range exists {
+		cand[nm] = true
+		for _, s := range c14Superiors(nm) {
+			cand[s] = true
+		}
+	}
+	// INBOX is case-insensitive in the pattern as well
+	full := ref + pattern
+	segs := strings.Split(full, "/")
+	for i := range segs {
+		if strings.EqualFold(segs[i], "inbox") {
+			segs[i] = "INBOX"
+		}
+	}
+	full = strings.Join(segs, "/")
+	want := 0
+	for nm := range cand {
+		m, in := got[nm]
+		if c14Wild(full, nm) {
+			want++
+			vsymAssert(in, "a name selected by the pattern is listed")
+			if in {
+				vsymAssert(m.Atts.Contains(imap.AttrNoSelect) == !exists[nm], "\\Noselect exactly for names that exist only as parents")
+				vsymAssert(m.Delimiter == "/", "delimiter reported")
+			}
+		} else {
+			vsymAssert(!in, "a name the pattern does not select is not listed")
+		}
+	}
+	vsymAssert(len(got) == want, "nothing but existing names and their superiors is listed")
+	vsymCover("list-done")
 }
